@@ -8,10 +8,13 @@ use std::sync::Arc;
 
 fn gen_ivs(rng: &mut Rng) -> J { let n = rng.below(3); let mut lo = rng.range(-6, 2); let mut v = vec![]; for _ in 0..=n { let hi = lo + if rng.chance(1, 3) { 0 } else { rng.range(0, 4) }; v.push(json!([lo, hi])); lo = hi + rng.range(2, 4); } if rng.chance(1, 12) { json!([]) } else { json!(v) } }
 
+/// the admissible lengths of a list: one interval, or two with a hole between them (what a union of list types produces)
+fn gen_size(rng: &mut Rng) -> J { let lo = rng.range(0, 2); let hi = lo + rng.range(0, 2); if rng.chance(1, 3) { let lo2 = hi + rng.range(2, 3); json!([[lo, hi], [lo2, lo2 + rng.range(0, 1)]]) } else { json!([[lo, hi]]) } }
+
 fn gen_ty(rng: &mut Rng, depth: u32) -> J {
     if depth == 0 || rng.chance(1, 3) { return json!(["int", gen_ivs(rng)]); }
     // Optional wraps scalars only (what a nullable column is); structs and lists nest freely
-    match rng.below(4) { 0 => json!(["opt", ["int", gen_ivs(rng)]]), 1 | 2 => json!(["pair", gen_ty(rng, depth - 1), gen_ty(rng, depth - 1)]), _ => { let lo = rng.range(0, 2); json!(["list", gen_ty(rng, depth - 1), [[lo, lo + rng.range(0, 2)]]]) } }
+    match rng.below(4) { 0 => json!(["opt", ["int", gen_ivs(rng)]]), 1 | 2 => json!(["pair", gen_ty(rng, depth - 1), gen_ty(rng, depth - 1)]), _ => { json!(["list", gen_ty(rng, depth - 1), gen_size(rng)]) } }
 }
 
 /// a type of the same shape with other bounds (so that subset / union / intersection are not trivially decided by the shape), sometimes with an Optional added or removed
@@ -21,7 +24,16 @@ fn perturb(rng: &mut Rng, t: &J) -> J {
                 let v: Vec<J> = t[1].as_array().unwrap().iter().map(|p| json!([p[0].as_i64().unwrap() - rng.range(0, 1), p[1].as_i64().unwrap() + rng.range(0, 1)])).collect(); let out = json!(["int", v]); if rng.chance(1, 6) { json!(["opt", out]) } else { out } } else { json!(["int", gen_ivs(rng)]) } }
         "opt" => if rng.chance(1, 5) { perturb(rng, &t[1]) } else { let inner = perturb(rng, &t[1]); if inner[0] == "opt" { inner } else { json!(["opt", inner]) } },
         "pair" => json!(["pair", perturb(rng, &t[1]), perturb(rng, &t[2])]),
-        _ => { let s = &t[2][0]; json!(["list", perturb(rng, &t[1]), [[(s[0].as_i64().unwrap() - rng.range(0, 1)).max(0), s[1].as_i64().unwrap() + rng.range(0, 1)]]]) }
+        _ => { let sz = match rng.below(4) {
+                   0 => t[2].clone(),
+                   // the hull of the sizes (fills the holes), or the sizes widened at both ends
+                   1 => { let a = t[2].as_array().unwrap(); json!([[a[0][0], a[a.len() - 1][1]]]) }
+                   2 => json!(t[2].as_array().unwrap().iter().map(|s| json!([(s[0].as_i64().unwrap() - rng.range(0, 1)).max(0), s[1].as_i64().unwrap() + rng.range(0, 1)])).collect::<Vec<_>>()),
+                   _ => gen_size(rng) };
+               // widening can make two intervals touch or overlap: re-normalise through the library-independent merge
+               let mut v: Vec<(i64, i64)> = sz.as_array().unwrap().iter().map(|s| (s[0].as_i64().unwrap(), s[1].as_i64().unwrap())).collect(); v.sort();
+               let mut m: Vec<(i64, i64)> = vec![]; for (a, b) in v { if let Some(l) = m.last_mut() { if a <= l.1 { l.1 = l.1.max(b); continue; } } m.push((a, b)); }
+               json!(["list", perturb(rng, &t[1]), m.iter().map(|(a, b)| json!([a, b])).collect::<Vec<_>>()]) }
     }
 }
 
@@ -30,7 +42,7 @@ fn gen_val(rng: &mut Rng, t: &J) -> Option<J> {
         "int" => { let a = t[1].as_array().unwrap(); if a.is_empty() { None } else { let p = rng.pick(a); Some(json!(["i", rng.range(p[0].as_i64().unwrap(), p[1].as_i64().unwrap())])) } }
         "opt" => if rng.chance(1, 3) { Some(json!(["none"])) } else { gen_val(rng, &t[1]).map(|v| json!(["some", v])) },
         "pair" => Some(json!(["pair", gen_val(rng, &t[1])?, gen_val(rng, &t[2])?])),
-        _ => { let s = &t[2][0]; let n = rng.range(s[0].as_i64().unwrap(), s[1].as_i64().unwrap()); let mut v = vec![]; for _ in 0..n { v.push(gen_val(rng, &t[1])?); } Some(json!(["list", v])) }
+        _ => { let s = rng.pick(t[2].as_array().unwrap()).clone(); let n = rng.range(s[0].as_i64().unwrap(), s[1].as_i64().unwrap()); let mut v = vec![]; for _ in 0..n { v.push(gen_val(rng, &t[1])?); } Some(json!(["list", v])) }
     }
 }
 
